@@ -166,6 +166,8 @@ class Sim:
         self._burst_left = 0
         self.op_seq = 0  # global event sequence for history stamps
         self.inline = False
+        # code under test that draws from the global PRNG (reftable names)
+        random.seed(derive_seed(seed, "global-random"))
 
     # ------------------------------------------------------------------ rng
     def rng(self, name) -> random.Random:
